@@ -19,15 +19,17 @@ variant_of() {
 build() { # $1 = build dir, $2 = variant
   local dir=$1 variant=$2
   mkdir -p "$dir"
-  cp "$REPO/go.sum" "$VERIF/mc/go.sum"
-  (cd "$VERIF/mc" && go run ./cmd/instr -repo "$REPO" -out "$dir") >"$dir/instr.log" 2>&1 || { cat "$dir/instr.log"; echo "INFRA-ERROR: instrumentation failed"; return 2; }
+  # private module file: the library is replaced by $REPO (default /repo); mc/go.mod itself is never edited
+  sed "s#=> /repo#=> $REPO#" "$VERIF/mc/go.mod" > "$dir/go.mod"
+  cp "$REPO/go.sum" "$dir/go.sum"
+  (cd "$VERIF/mc" && go run -modfile="$dir/go.mod" ./cmd/instr -repo "$REPO" -out "$dir") >"$dir/instr.log" 2>&1 || { cat "$dir/instr.log"; echo "INFRA-ERROR: instrumentation failed"; return 2; }
   local flags=()
   case "$variant" in
     checkptr) flags=(-gcflags=all=-d=checkptr) ;;
     race) flags=(-race) ;;
   esac
   if [ "$variant" = race ]; then export CGO_ENABLED=1; fi
-  (cd "$VERIF/mc" && go build "${flags[@]}" -overlay "$dir/overlay.json" -o "$dir/mc" ./cmd/mc) >"$dir/build.log" 2>&1 || { cat "$dir/build.log"; echo "INFRA-ERROR: build failed"; return 2; }
+  (cd "$VERIF/mc" && go build -modfile="$dir/go.mod" "${flags[@]}" -overlay "$dir/overlay.json" -o "$dir/mc" ./cmd/mc) >"$dir/build.log" 2>&1 || { cat "$dir/build.log"; echo "INFRA-ERROR: build failed"; return 2; }
   return 0
 }
 
